@@ -9,7 +9,7 @@ from vt.env.blerig import BleRig
 
 
 class BleH(explore.Harness):
-    ALPH = ["req1", "req2", "step", "write-fails", "write-ack-lost", "replay", "future", "corrupt", "cancel", "timer", "drop"]
+    ALPH = ["req1", "req2", "step", "write-fails", "write-ack-lost", "arm-pv-fail", "replay", "future", "corrupt", "cancel", "timer", "drop"]
     # (req3: a read of ANOTHER characteristic - whose answer cannot be mistaken for req1's - for the attribution oracle, see _check_results)
 
     def __init__(self, p):
@@ -39,6 +39,12 @@ class BleH(explore.Harness):
                 import asyncio
 
                 await asyncio.sleep(0)
+                if kind == "write" and getattr(self, "pv_fail_armed", False):
+                    # one write of the pair-verify exchange is refused by the stack while the link stays up
+                    from bleak.exc import BleakError
+
+                    self.pv_fail_armed = False
+                    raise BleakError("Write rejected (adapter busy)")
                 return None
             self.rig.gated = True
             try:
@@ -72,6 +78,9 @@ class BleH(explore.Harness):
                     m.append(a)
             elif a == "step":
                 if w:
+                    m.append(a)
+            elif a == "arm-pv-fail":
+                if not getattr(self, "pv_fail_armed", False) and getattr(self, "n_pvfail", 0) < 1:
                     m.append(a)
             elif a in ("write-fails", "write-ack-lost"):
                 # one GATT write is refused by the stack / delivered but its acknowledgement lost, while the link stays up
@@ -129,6 +138,9 @@ class BleH(explore.Harness):
             if w[1] == "read" and acc.out.get(w[2]):
                 self.delivered.append(acc.out[w[2]][0])
             self.rig.release()
+        elif label == "arm-pv-fail":
+            self.n_pvfail = getattr(self, "n_pvfail", 0) + 1
+            self.pv_fail_armed = True
         elif label in ("write-fails", "write-ack-lost"):
             from bleak.exc import BleakError
 
@@ -235,7 +247,7 @@ class BleH(explore.Harness):
         generic = _c.canon(p, depth=2, skip=("controller", "_accessories_state", "pairing_data", "_pairing_data", "listeners", "availability_listeners", "config_changed_listeners", "device", "client",
                                             "ble_advertisement", "description", "key", "_derive", "_session_id", "_last_seen", "_broadcast_decryption_key"))
         return (generic, ek.counter if ek else None, dk.counter if dk else None, (acc.secure or {}).get("c2a_ctr"), (acc.secure or {}).get("a2c_ctr"), len(self.rig.clients),
-                bool(self.rig.client and self.rig.client.is_connected), tuple((t.done(), t.cancelled()) for t in self.tasks), tuple((w[1], w[2]) for w in self.rig.waiting if not w[0].done()),
+                bool(self.rig.client and self.rig.client.is_connected), tuple((t.done(), t.cancelled()) for t in self.tasks), tuple((w[1], w[2]) for w in self.rig.waiting if not w[0].done()), getattr(self, "pv_fail_armed", False), getattr(self, "n_pvfail", 0), getattr(self, "n_wfail", 0),
                 tuple(sorted((k, len(v)) for k, v in acc.out.items() if v)), tuple(sorted(round(h._when - self.loop.time(), 6) for h in self.loop._scheduled if not h._cancelled)), len(self.delivered) > 0, _c.tasks_sig(self.loop))
 
     def outcome(self):
